@@ -575,10 +575,18 @@ def check_history(case, rec):
     _labels(case, ref, rec)
     with quiet():
         model = lib(build_model, spec, _what="model construction", _tags=tags)
+        per0 = case["period"]
+        scribble = None
+        if isinstance(per0, list) and case["seed"] % 2 == 0:
+            # the period as a float64 array which the caller re-uses for something else afterwards
+            per0 = scribble = np.array(per0, dtype=np.double)
+            rec.label("period_as_reused_ndarray")
         srf = lib(
-            gs.SRF, model, generator="Fourier", period=case["period"], mode_no=case["mode_no"], seed=case["seed"],
+            gs.SRF, model, generator="Fourier", period=per0, mode_no=case["mode_no"], seed=case["seed"],
             _what="SRF(generator='Fourier')", _tags=tags,
         )  # fmt: skip
+        if scribble is not None:
+            scribble *= 1.7
     varied, go = _evaluate(srf, ref, case, rec, tags, "fresh SRF", history=True)
     changes = 0
     for i, op in enumerate(case["ops"]):
@@ -594,7 +602,13 @@ def check_history(case, rec):
         try:
             with quiet():
                 if k == "period":
-                    gen.period = op["v"]
+                    if isinstance(op["v"], list) and i % 2 == 0:
+                        arr = np.array(op["v"], dtype=np.double)
+                        gen.period = arr
+                        arr *= 1.7
+                        rec.label("period_as_reused_ndarray")
+                    else:
+                        gen.period = op["v"]
                     ref.period = fill(op["v"], dim)
                 elif k == "modes":
                     gen.mode_no = op["v"]
